@@ -12,6 +12,8 @@ open DEngine.Proto
 structure Case where
   sim : Bool
   ops : List Op
+  /-- the real RocksDB store: reference semantics, no durable copy to look at, no power loss -/
+  rocks : Bool := false
 deriving Repr
 
 def parseEntry (s : String) : Option Entry :=
@@ -72,11 +74,12 @@ def parseOp (s : String) : Option Op := do
 def parseCase (line : String) : Option Case :=
   match line.splitOn "|" with
   | [head, body] =>
-    let sim? := if head == "e=sim" then some true else if head == "e=file" then some false else none
-    do let sim ← sim?
+    let eng? := if head == "e=sim" then some (true, false) else if head == "e=file" then some (false, false)
+      else if head == "e=rocks" then some (false, true) else none
+    do let (sim, rocks) ← eng?
        let ops ← if body.isEmpty then some [] else (body.splitOn ";").mapM parseOp
        if !sim && ops.any (fun o => o == Op.crash true) then none
-       pure { sim := sim, ops := ops }
+       pure { sim := sim, ops := ops, rocks := rocks }
   | _ => none
 
 /-! ## printing -/
@@ -297,7 +300,7 @@ def monitorC18 (c : Case) (out : String) : String :=
         -- a failure in a case that forces a select! race (an arm other than the command arm first, or a timer
         -- tick due while an operation waits) goes under one name; otherwise the engine is part of the name
         if c.ops.any Op.racy then "bad c18-io-race"
-        else "bad " ++ sig ++ (if c.sim then "" else "-filestore")
+        else "bad " ++ sig ++ (if c.sim then "" else if c.rocks then "-rocksdb" else "-filestore")
       | (none, 0) => "skip"
       | (none, _) => "ok"
 
